@@ -2,7 +2,9 @@ package c12
 
 import (
 	"bytes"
+	"errors"
 	"fmt"
+	"io"
 	"testing"
 
 	"github.com/parquet-go/parquet-go"
@@ -32,6 +34,10 @@ type Case struct {
 	Entry  string      `json:"entry"`
 	Batch  int         `json:"batch"`
 	Sorted bool        `json:"sorted,omitempty"` // merge entry: declare a sorting column
+	// Revisit (NewReader / ConvertRowGroup entries): before the full read, seek forward to row At‰, read a few rows, then
+	// 1 seek back to row 0, 2 Reset (Reader) / a second Rows() of the same converted row group
+	Revisit int `json:"revisit,omitempty"`
+	At      int `json:"at,omitempty"`
 }
 
 var entries = []string{"NewReader(schema)", "ConvertRowGroup", "ConvertRowReader", "CopyRows", "MergeRowGroups(schema)", "MergeRowGroups(schema)"}
@@ -209,6 +215,9 @@ func genCase(t *rapid.T) Case {
 	c.Plan.Uniq = rapid.Bool().Draw(t, "uniq")
 	c.Batch = []int{1, 7, 64, 300}[rapid.IntRange(0, 3).Draw(t, "batch")]
 	c.Sorted = rapid.Bool().Draw(t, "sorted")
+	if rapid.IntRange(0, 2).Draw(t, "revisit") == 0 {
+		c.Revisit, c.At = rapid.IntRange(1, 2).Draw(t, "rvmode"), rapid.IntRange(1, 999).Draw(t, "rvat")
+	}
 	return c
 }
 
@@ -335,11 +344,24 @@ func runCase(c Case, o *kit.Obs) *kit.Failure {
 	if err != nil {
 		return kit.Failf("c12/open-source", "%v", err)
 	}
-	var got []parquet.Row
+	var got, part []parquet.Row
+	at := 0
 	switch c.Entry {
 	case "NewReader(schema)":
 		r := parquet.NewReader(f, tschema)
-		got, err = pq.ReadAllRows(r, c.Batch)
+		if c.Revisit > 0 && len(rows) > 0 {
+			if part, at, err = peek(r, c.At, len(rows)); err == nil {
+				if c.Revisit == 1 {
+					err = r.SeekToRow(0)
+				} else {
+					r.Reset()
+				}
+			}
+			o.Class("revisit")
+		}
+		if err == nil {
+			got, err = pq.ReadAllRows(r, c.Batch)
+		}
 		r.Close()
 	case "ConvertRowGroup":
 		conv, cerr := parquet.Convert(tschema, sschema)
@@ -347,9 +369,23 @@ func runCase(c Case, o *kit.Obs) *kit.Failure {
 			return kit.Failf("c12/convert-error"+feat, "Convert rejected a delete/add-only target: %v", cerr)
 		}
 		for _, rg := range f.RowGroups() {
-			r := parquet.ConvertRowGroup(rg, conv).Rows()
+			crg := parquet.ConvertRowGroup(rg, conv)
+			r := crg.Rows()
+			if c.Revisit > 0 && len(got) == 0 && rg.NumRows() > 0 {
+				if part, at, err = peek(r, c.At, int(rg.NumRows())); err == nil {
+					if c.Revisit == 1 {
+						err = r.SeekToRow(0)
+					} else {
+						r.Close()
+						r = crg.Rows()
+					}
+				}
+				o.Class("revisit")
+			}
 			var rs []parquet.Row
-			rs, err = pq.ReadAllRows(r, c.Batch)
+			if err == nil {
+				rs, err = pq.ReadAllRows(r, c.Batch)
+			}
 			r.Close()
 			got = append(got, rs...)
 			if err != nil {
@@ -400,6 +436,12 @@ func runCase(c Case, o *kit.Obs) *kit.Failure {
 	}
 	if len(got) != len(rows) {
 		return kit.Failf(sigOf(c, "c12/rowcount"+feat), "%d rows out, %d in", len(got), len(rows))
+	}
+	// the rows read after the forward seek are the rows of the full read at that position
+	for i := range part {
+		if at+i >= len(got) || !part[i].Equal(got[at+i]) {
+			return kit.Failf(sigOf(c, "c12/seek-differs"+feat), "row %d read after SeekToRow(%d) differs from the same row of the full read", at+i, at)
+		}
 	}
 	normalise := func(gs [][]ref.LV) {
 		// an entry whose definition level is below the column's maximum is null whatever
@@ -475,6 +517,27 @@ func runCase(c Case, o *kit.Obs) *kit.Failure {
 		o.NonTrivial()
 	}
 	return nil
+}
+
+// peek seeks to row n*at/1000 and reads up to 3 rows (cloned).
+func peek(r interface {
+	parquet.RowReader
+	SeekToRow(int64) error
+}, at, n int) ([]parquet.Row, int, error) {
+	k := n * at / 1000
+	if err := r.SeekToRow(int64(k)); err != nil {
+		return nil, k, err
+	}
+	buf := make([]parquet.Row, 3)
+	m, err := r.ReadRows(buf)
+	if err != nil && !errors.Is(err, io.EOF) {
+		return nil, k, err
+	}
+	out := make([]parquet.Row, m)
+	for i := range out {
+		out[i] = buf[i].Clone()
+	}
+	return out, k, nil
 }
 
 // multisetDiff compares rows as multisets (each row rendered to a string).
